@@ -437,6 +437,7 @@ def caps_for(tier):
 def generic_check(prop, tier, own, scns, plans, rule, gens=None, extra_assume=(), models=None):
     t0 = time.time()
     vlib.TIME_BUDGET = 60 if tier == "quick" else 240
+    vlib.MM_MAX_EVENTS_PER_FILE = 150000 if tier == "quick" else 600000
     wd = vlib.workdir(prop)
     v = vlib.Verdict(prop, own)
     cov = new_cov(rule)
@@ -528,6 +529,15 @@ def capacity_probe(wd, v, cov, tier):
                    sc.S("drain", "rx"), sc.S("drop", "rx")]
             scns.append(vlib.seq_to_scenario("C03cap-%s-%d" % (fam_tag(fam, fut), cap), fam, fut, cap, ops,
                                              spins=[0, 0] if (fut and fam == "bcast") else None))
+            # the same bound across the switches between single- and multi-producer mode: a second sender appears
+            # after more than N single-producer sends, fills, goes away again
+            ops = [sc.S("fill", "tx", v=1000, n=40), sc.S("drain", "rx"), sc.S("send", "tx", v=1500), sc.S("recv", "rx"),
+                   sc.S("clone", "tx", new="t2"), sc.S("fill", "t2", v=2000, n=40), sc.S("drain", "rx"),
+                   sc.S("fill", "tx", v=3000, n=40), sc.S("recv", "rx"), sc.S("send", "t2", v=3500), sc.S("send", "tx", v=3501),
+                   sc.S("drain", "rx"), sc.S("drop", "t2"), sc.S("fill", "tx", v=4000, n=40), sc.S("drain", "rx"),
+                   sc.S("drop", "tx"), sc.S("drain", "rx"), sc.S("drop", "rx")]
+            scns.append(vlib.seq_to_scenario("C03mode-%s-%d" % (fam_tag(fam, fut), cap), fam, fut, cap, ops,
+                                             spins=[0, 0] if (fut and fam == "bcast") else None))
     concurrent_stage("C03", wd, scns, v, cov, [("default", 1, 0)], label="capprobe")
 
 
@@ -538,6 +548,9 @@ def check_C04(tier):
     scns = (sc.traffic("C04", "bcast", caps=caps, shapes=shapes) + sc.traffic("C04", "mpmc", caps=caps, shapes=shapes) +
             sc.uni_traffic("C04", "bcast", caps=caps) + sc.uni_traffic("C04", "mpmc", caps=caps) +
             sc.population("C04p", "bcast", caps=caps[:2]) + sc.deep_shared("C04x") +
+            # a stream appears while the producer wraps: a slot the new stream has not passed must not be rewritten
+            # under its clone / view
+            sc.add_stream_scn("C04a", caps=caps[:2]) +
             sc.with_drop_yield(sc.uni_traffic("C04y", "mpmc", caps=caps[:2]) + sc.traffic("C04y", "bcast", caps=caps[:1])[:3]))
     return generic_check("C04", tier, ["C04", "C04C05"], scns, plans_for(tier), RULE_CONC +
                          "; the payload's Clone and the view closure contain a scheduling point, so the real code is "
